@@ -3,6 +3,7 @@ import QipVerif.Lemmas.SchedC
 import QipVerif.Lemmas.SchedSafe
 import QipVerif.Lemmas.SchedFixed
 import QipVerif.Lemmas.SchedOracle
+import QipVerif.Lemmas.SchedTree
 import Mathlib.Algebra.Group.Opposite
 import Mathlib.Algebra.BigOperators.Group.List.Lemmas
 import Mathlib.Algebra.FreeMonoid.Basic
@@ -357,5 +358,128 @@ example : ∀ g ∈ ([⟨.TOFFOLI, [2], [0, 1], {}⟩, ⟨.TOFFOLI, [3], [1, 0],
 example : commRules (insOf wPatch ⟨.FREDKIN, [1, 2], [0], {}⟩) (insOf wPatch ⟨.FREDKIN, [2, 3], [0], {}⟩) = false ∧
     commRules (insOf (fun _ => true) ⟨.FREDKIN, [1, 2], [0], {}⟩) (insOf (fun _ => true) ⟨.FREDKIN, [2, 3], [0], {}⟩) = true := by
   decide +kernel
+
+/-! ## (g) the rule and the set of the tree under test, regenerated
+
+`Gen/SchedRule.lean` is rewritten from `scheduler.py` on every check (`py/translate/sched.py`, `ast`):
+`Gen.SchedRule.commutationRules` is the body of `Scheduler.commutation_rules`, `Gen.SchedRule.selfCommuting` the
+literal `_SELF_COMMUTING_GATES`.  `TreeIns a`: the flag `a.sc` is "`a.name` is in that set" — the driver computes the
+flag this way for every instruction it is given. -/
+
+/-- **comm_rules_regenerated.**  On such instructions the rule the model runs *is* the regenerated function: an
+edit of `commutation_rules` changes the right-hand side and this theorem no longer builds. -/
+theorem comm_rules_regenerated (a b : Ins) (ha : TreeIns a) (hb : TreeIns b) :
+    commRules a b = Gen.SchedRule.commutationRules a b :=
+  commRules_eq_gen a b ha hb
+
+example : TreeIns (treeIns "QASMU" [0] [] 1) ∧ (treeIns "QASMU" [0] [] 1).sc = false ∧
+    (treeIns "SWAP" [0, 1] [] 1).sc = true ∧
+    Gen.SchedRule.commutationRules (treeIns "QASMU" [0] [] 1) (treeIns "QASMU" [0] [] 1) = false ∧
+    Gen.SchedRule.commutationRules (treeIns "CNOT" [1] [0] 1) (treeIns "CNOT" [2] [0] 1) = true := by decide +kernel
+
+/-- the tree carries the repair: the module has a set `_SELF_COMMUTING_GATES` … -/
+theorem tree_set_present : Gen.SchedRule.selfCommuting.isSome = true := by decide
+
+/-- … that does not list `FREDKIN` (two `FREDKIN` gates sharing the control do not commute) … -/
+theorem tree_set_without_fredkin : Gen.SchedRule.inSet "FREDKIN" = false := by decide
+
+/-- … **and every name it lists is a self-commuting family with a meaning in `schedule_den_C_full`**
+(`interpretedNames`, each realised: `self_commuting_names_realised`).  Adding a name such as `QASMU`, `R`, `MS`,
+`RZX`, `FREDKIN` or a user-defined name to the set breaks this theorem at build time. -/
+theorem tree_set_interpreted : ∀ s, Gen.SchedRule.inSet s = true → s ∈ interpretedNames := by
+  have h : ((Gen.SchedRule.selfCommuting.getD []).all fun s => interpretedNames.contains s) = true := by decide
+  intro s hs
+  have hp : Gen.SchedRule.selfCommuting = some (Gen.SchedRule.selfCommuting.getD []) := by
+    cases hsc : Gen.SchedRule.selfCommuting with
+    | none => have := tree_set_present; rw [hsc] at this; cases this
+    | some l => rfl
+  unfold Gen.SchedRule.inSet at hs
+  rw [hp] at hs
+  have := List.all_eq_true.mp h s (by simpa using hs)
+  simpa using this
+
+/-- every interpreted name is realised: an instruction of that name, flagged self-commuting, with an operator
+satisfying `GateOK` exists (three qubits, every valuation of the angles) -/
+theorem self_commuting_names_realised (ρ : ℕ → ℝ) : ∀ s ∈ interpretedNames,
+    ∃ (a : Ins) (A : Matrix (St 3) (St 3) ℂ), a.name = s ∧ a.sc = true ∧ GateOK 3 ρ a A :=
+  interpreted_realised ρ
+
+/-- an instruction not flagged self-commuting whose name is none of `CNOT X RX Z RZ` is never declared commuting -/
+theorem declared_never_opaque (a b : Ins) (hs : a.sc = false) (hn : a.name ∉ crossNames) :
+    commRules a b = false ∧ commRules b a = false :=
+  commRules_opaque hs hn b
+
+/-! ## (e⁗) the repaired rule, every gate: `schedule_den_C_full`
+
+The circuit is a list of scheduler instructions with one operator per position; every position is (`GateOK`,
+`Lemmas/SchedFull.lean`) a **library gate** in canonical shape (an IR gate with `semD = some (g i)`, under its own
+name or its other spelling `H` / `CX` / `iSWAP`), a **SWAPALPHA** gate (`Gen.G.swapalpha_ α` on its two targets, any
+`α`), or — for an instruction that is not flagged self-commuting and is not named `CNOT X RX Z RZ` — **any operator
+supported on the used qubits** (`QASMU`, `R`, `MS`, `RZX`, `FREDKIN` on a repaired tree, user-defined gates). -/
+
+/-- **schedule_den_C_full** (matrix order `U = U_n ⋯ U_1`).  If no `FREDKIN` instruction is flagged self-commuting,
+the scheduled circuit is the same operator as the original one: both methods, both permutation settings, every
+oracle, every valuation, every register size.  No commutation hypothesis, no decidable side condition. -/
+theorem schedule_den_C_full (N : ℕ) (ρ : ℕ → ℝ) (g : Nat → Matrix (St N) (St N) ℂ) (hO : ∀ r l, (O2 r l).Perm l)
+    (hF : ∀ a ∈ ns, a.name = "FREDKIN" → a.sc = false)
+    (hok : ∀ i, i < ns.length → GateOK N ρ (getIns ns i) (g i)) :
+    ((cyclesGen alap allowPerm ns O2).flatten.map g).reverse.prod = ((List.range ns.length).map g).reverse.prod :=
+  schedule_den_full ρ alap allowPerm ns g O2 hO hF hok
+
+/-- the same in circuit order (first gate = leftmost factor) -/
+theorem schedule_den_C_full_fwd (N : ℕ) (ρ : ℕ → ℝ) (g : Nat → Matrix (St N) (St N) ℂ) (hO : ∀ r l, (O2 r l).Perm l)
+    (hF : ∀ a ∈ ns, a.name = "FREDKIN" → a.sc = false)
+    (hok : ∀ i, i < ns.length → GateOK N ρ (getIns ns i) (g i)) :
+    ((cyclesGen alap allowPerm ns O2).flatten.map g).prod = ((List.range ns.length).map g).prod :=
+  schedule_den_full_fwd ρ alap allowPerm ns g O2 hO hF hok
+
+/-- **schedule_den_C_tree.**  The instance for the tree under test: every flag is membership in the regenerated
+`_SELF_COMMUTING_GATES` (so the model runs the regenerated rule, `comm_rules_regenerated`); the only hypothesis left is
+what each position is (`GateOK`). -/
+theorem schedule_den_C_tree (N : ℕ) (ρ : ℕ → ℝ) (g : Nat → Matrix (St N) (St N) ℂ) (hO : ∀ r l, (O2 r l).Perm l)
+    (htree : ∀ a ∈ ns, TreeIns a) (hok : ∀ i, i < ns.length → GateOK N ρ (getIns ns i) (g i)) :
+    ((cyclesGen alap allowPerm ns O2).flatten.map g).reverse.prod = ((List.range ns.length).map g).reverse.prod :=
+  schedule_den_C_full alap allowPerm ns O2 N ρ g hO (tree_no_fredkin tree_set_without_fredkin htree) hok
+
+/-- the circuit-level form for IR gates (`denG`), with the tree's set -/
+theorem schedule_den_C_tree_circuit (N : ℕ) (ρ : ℕ → ℝ) (gs : List Gate)
+    (hO : ∀ r l, (O2 r l).Perm l) (h : ∀ g ∈ gs, wfG N g = true ∧ shapeOK g = true) :
+    denG N ρ (((cyclesGen alap allowPerm (gs.map (insOf Gen.SchedRule.inSet)) O2).flatten).map (fun i => gs.getD i dfltGate)) =
+      denG N ρ gs :=
+  schedule_den_C_fixed alap allowPerm O2 Gen.SchedRule.inSet tree_set_without_fredkin N ρ gs hO h
+
+/-- the circuit used for non-vacuity: `H` on qubit 0, a one-qubit gate `QASMU` on qubit 0, `SWAPALPHA` on 0, 1,
+`CX` with control 0 and target 1, another `QASMU` on qubit 0 -/
+def fullWitness : List Ins :=
+  [treeIns "H" [0] [] 1, treeIns "QASMU" [0] [] 1, treeIns "SWAPALPHA" [0, 1] [] 1, treeIns "CX" [1] [0] 1,
+   treeIns "QASMU" [0] [] 1]
+
+-- non-vacuity of `GateOK` / `TreeIns`: the five positions are an alias of a library gate, an arbitrary one-qubit
+-- operator, a SWAPALPHA gate, another alias, another arbitrary operator
+example (ρ : ℕ → ℝ) (U V : Matrix (St 1) (St 1) ℂ) : (∀ a ∈ fullWitness, TreeIns a) ∧
+    ∃ g : ℕ → Matrix (St 2) (St 2) ℂ, ∀ i, i < fullWitness.length → GateOK 2 ρ (getIns fullWitness i) (g i) := by
+  refine ⟨by decide, ?_⟩
+  obtain ⟨A, hA, _⟩ := wfG_sem (N := 2) ρ (fun _ => true) ⟨.SNOT, [0], [], {}⟩ (by decide)
+  obtain ⟨B, hB, _⟩ := wfG_sem (N := 2) ρ (fun _ => true) ⟨.CNOT, [1], [0], {}⟩ (by decide)
+  have hop : ∀ W : Matrix (St 1) (St 1) ℂ, OpaqueOK 2 (treeIns "QASMU" [0] [] 1) ((Tg.single (0 : Fin 2)).embed W) := by
+    intro W
+    refine ⟨by decide, by decide, SupportedOn.embed _ _ ?_⟩
+    rintro _ ⟨p, rfl⟩
+    show (0 : ℕ) ∈ Ins.used _
+    decide
+  refine ⟨fun i => match i with
+    | 0 => A
+    | 1 => (Tg.single (0 : Fin 2)).embed U
+    | 2 => (Tg.pair (0 : Fin 2) 1 (by decide)).embed (mat2 (Gen.G.swapalpha_ (1 / 3)))
+    | 3 => B
+    | _ => (Tg.single (0 : Fin 2)).embed V, ?_⟩
+  intro i hi
+  have hi' : i < 5 := hi
+  interval_cases i
+  · exact Or.inl ⟨⟨.SNOT, [0], [], {}⟩, by decide, by decide, hA, rfl, rfl, Or.inr (by decide)⟩
+  · exact Or.inr (Or.inr (hop U))
+  · exact Or.inr (Or.inl ⟨0, 1, by decide, 1 / 3, by decide, rfl, rfl, rfl⟩)
+  · exact Or.inl ⟨⟨.CNOT, [1], [0], {}⟩, by decide, by decide, hB, rfl, rfl, Or.inr (by decide)⟩
+  · exact Or.inr (Or.inr (hop V))
 
 end QipVerif.C05
